@@ -247,7 +247,13 @@ def run_global(ctx):
         for s in crate.statics:
             # lazy_static's private LAZY cell is the one-time initialiser itself
             if s["path"].endswith("::__stability::LAZY"):
-                res.ok("static:%s" % s["path"], "%s:%s" % (s["file"], s["line"]), "lazy_static's Once cell (initialisation only)")
+                inner = s["ty"].split("Lazy<", 1)[-1]
+                if any(x in inner for x in INTERIOR):
+                    res.bad("static:%s" % s["path"], "lazily initialised static %s holds %s: a process-wide mutable table (a cache, a counter) "
+                                                     "outlives every parse and run, so what a program does depends on what ran before it"
+                            % (s["path"].rsplit("::__stability", 1)[0].rsplit("::deref", 1)[0], inner.rstrip(">")[:120]), "%s:%s" % (s["file"], s["line"]))
+                else:
+                    res.ok("static:%s" % s["path"], "%s:%s" % (s["file"], s["line"]), "lazy_static's Once cell (initialisation only)")
                 continue
             n += 1
             key = "static:%s" % s["path"]
